@@ -2,11 +2,13 @@
 from __future__ import annotations
 
 import ast
+import re
 
+from ..expand import load_known
 from ..loops import dotted, find_env_loop
 from ..nf import NF, Scope, Poly, parse_expr
-from ..repo import Repo, loc, short, AnalysisError, positional_params, param_names, bind_call
-from ..sem import OrderModel, Unknown, eval_order_formula, summarise_paths, active_summaries, same_ingredients, result_position, split_conditional_assignments
+from ..repo import Repo, loc, short, AnalysisError, param_names, bind_call
+from ..sem import OrderModel, Unknown, eval_order_formula, summarise_paths, active_summaries, same_ingredients, ingredient_tokens, result_position, split_conditional_assignments
 from ..sympath import enumerate_paths, PathEval
 
 EXPLANATION = (
@@ -42,33 +44,94 @@ def _env(fn):
     return {p: Poly.atom(p, {p}, {p}) for p in param_names(fn)}
 
 
+_UNREAD = re.compile(r"φ\(|⟦|__i\d+")
+
+
+def _unread(*values) -> bool:
+    """Does one of the values contain something the engine could not read (a merge of definitions, an opaque comprehension / lambda, a
+    temporary of the helper expander that was never bound)?  A comparison that fails on such a value is not evidence of a difference."""
+    return any(v is not None and _UNREAD.search(v.canon() if isinstance(v, Poly) else str(v)) for v in values)
+
+
+def _evident(site, what, *values):
+    if _unread(*values):
+        raise AnalysisError(f"{site}: {what} contains a part that was not read (unrecognised form)")
+
+
+def _undecided(ck, msg):
+    """Record an undecided detail without abandoning the rest of the rule group (same channel as ck.guard)."""
+    ck.incomplete.append(msg)
+
+
 # ---- R1 ------------------------------------------------------------------------------------------------------------------------------------
+NOT_A_SUM = ("max", "min", "amax", "amin", "mean", "median", "prod", "len", "size", "std", "var", "norm")
+
+
+def _constructor_fields(repo, owner):
+    """Field names of a (data)class in constructor order, base classes first."""
+    out = []
+    for cq in reversed(repo.mro(owner)):
+        for ch in repo.cls(cq).body:
+            if isinstance(ch, ast.AnnAssign) and isinstance(ch.target, ast.Name) and ch.target.id not in out:
+                out.append(ch.target.id)
+    return out
+
+
 def r1_weights(ck, repo, nf):
-    m = repo.method(CM + "CMAESConfig", "create", inherited=False)
+    m = repo.method(CM + "CMAESConfig", "create")
     ck.need(m is not None, "CMAESConfig.create not found")
-    fn = m[1]
-    mi = repo.cls(CM + "CMAESConfig")._module
+    owner, fn = m
+    mi = repo.cls(owner)._module
     fn._module = mi
     cfg = nf.cfg_of(fn)
-    env = {p: Poly.atom(p, {p}, {p}) for p in positional_params(fn)}
+    env = _env(fn)
+    P = param_names(fn)
+    if P and P[0] in ("cls", "self"):
+        P = P[1:]
+    ck.need(len(P) >= 8, "CMAESConfig.create: signature changed (anchor vanished)")
+    NPAR, NSPU = P[6], P[7]           # n_params, n_samples_per_update by their position in the recorded signature
     ret = [n for n in cfg.nodes if n.kind == "stmt" and isinstance(n.ast, ast.Return)]
     ck.need(len(ret) == 1 and isinstance(ret[0].ast.value, ast.Call), "CMAESConfig.create: return cls(...) not found")
-    kw = {k.arg: k.value for k in ret[0].ast.value.keywords}
-    ck.need("weights" in kw and "mu" in kw, "CMAESConfig.create: weights / mu are not passed by keyword (unrecognised form)")
+    rc = ret[0].ast.value
+    kw = {k.arg: k.value for k in rc.keywords if k.arg}
+    if rc.args and not any(isinstance(a_, ast.Starred) for a_ in rc.args):
+        kw = {**dict(zip(_constructor_fields(repo, CM + "CMAESConfig"), rc.args)), **kw}
+    # fields handed over as `**record._asdict()`: the record's class gives the names, the path evaluation the values
+    spread = {}
+    for k in rc.keywords:
+        v = k.value
+        if k.arg is None and isinstance(v, ast.Call) and isinstance(v.func, ast.Attribute) and v.func.attr == "_asdict" and not v.args and not v.keywords and isinstance(v.func.value, ast.Name):
+            ds = cfg.defs_of(ret[0].id, v.func.value.id)
+            c_ = ds[0].value if len(ds) == 1 and ds[0].kind == "assign" else None
+            r_ = repo.resolve_expr(mi, c_.func) if isinstance(c_, ast.Call) and isinstance(c_.func, (ast.Name, ast.Attribute)) else None
+            fields = NF._record_fields(repo.lookup(r_)[1]) if r_ and repo.has(r_) else None
+            for i, f_ in enumerate(fields or []):
+                spread[f_] = (v.func.value, i, len(fields), r_)
+    ck.need(all(f_ in kw or f_ in spread for f_ in ("weights", "mu")), "CMAESConfig.create: the weights / mu fields of the returned configuration were not found (unrecognised form)")
     # n_samples_per_update may be defaulted: evaluate on the path where it is given
     paths = enumerate_paths(cfg, cfg.entry, {ret[0].id})
     wseen = set()
     for p in paths:
         pe = PathEval(nf, cfg, mi, CM + "CMAESConfig.create", env).run(p[:-1])
-        wseen.add((pe.ev(kw["weights"]), pe.ev(kw["mu"])))
+
+        def field(f_):
+            if f_ in kw:
+                return pe.ev(kw[f_])
+            rec, i, n_, cls_ = spread[f_]
+            rm_ = nf.meta.get(pe.ev(rec).single_atom() or "", {})       # the constructor call of the record: field -> value
+            ck.need(rm_.get("fn") == cls_ and f_ in (rm_.get("record") or {}), f"CMAESConfig.create: the record `{rec.id}` that carries `{f_}` is not read (unrecognised form)")
+            return rm_["record"][f_]
+        wseen.add((field("weights"), field("mu")))
     sc0 = Scope(None, mi, env, "spec")
     where = loc(mi, fn)
     site = CM + "CMAESConfig.create"
     for w, mu in wseen:
         nums, mus = [], []
-        for nspu in ("n_samples_per_update", "(4 + int(3 * math.log(n_params)))"):
-            nums.append(nf.poly(parse_expr(f"(math.log({nspu} / 2.0 + 0.5) - jnp.log1p(jnp.arange(int({nspu} / 2.0))))"), sc0, None))
-            mus.append(nf.poly(parse_expr(f"int({nspu} / 2.0)"), sc0, None))
+        for nspu in (NSPU, f"(4 + int(3 * math.log({NPAR})))"):
+            # log1p(r) == log(1 + r): both spellings of the log-rank numerator
+            for ranks in ("jnp.log1p(jnp.arange(int({n} / 2.0)))", "jnp.log(jnp.arange(int({n} / 2.0)) + 1.0)"):
+                nums.append(nf.poly(parse_expr(f"(math.log({nspu} / 2.0 + 0.5) - {ranks.format(n=nspu)})"), sc0, None))
+                mus.append(nf.poly(parse_expr(f"int({nspu} / 2.0)"), sc0, None))
         # w == N / g: the atom that divides every monomial
         common = None
         for mono in w.terms:
@@ -80,19 +143,21 @@ def r1_weights(ck, repo, nf):
             N = w * Poly.atom(g)
             wg = nf.poly(parse_expr("jnp.sum(NUM)"), Scope(None, mi, {"NUM": N}, "spec"), None)
             want_g = wg.single_atom() or f"({wg.canon()})"
+            gm = nf.meta.get(g, {})
             if g == want_g:
                 ck.ob("R1-weights", site, "sum-to-one", True, "weights = N / sum(N)", "", where)
-            elif (nf.meta.get(g, {}).get("args") and nf.meta[g]["args"][0] == N) or same_ingredients(Poly.atom(g), wg, ("max", "min", "mean", "prod", "len")):
+            elif not _unread(w) and ((gm.get("fn", "").split(".")[-1] in NOT_A_SUM and gm.get("args") and gm["args"][0] == N) or same_ingredients(Poly.atom(g), wg, NOT_A_SUM)):
+                # positive evidence: the divisor is another reduction of the same numerator / is built from the numerator's ingredients only
                 ck.ob("R1-weights", site, "sum-to-one", False, f"weights = N / {g[:60]}", "the weights must be normalised by their own sum (they do not sum to one)", where)
             else:
                 raise AnalysisError(f"{site}: weights `{w.canon()[:100]}` are divided by `{g[:60]}` (unrecognised form)")
-        elif len(common) == 0 and any(same_ingredients(w, n_) for n_ in nums):
+        elif len(common) == 0 and not _unread(w) and any(same_ingredients(w, n_) for n_ in nums):
             N = w
             ck.ob("R1-weights", site, "sum-to-one", False, f"weights = {w.canon()[:100]}", "the weights are not normalised by their sum", where)
         else:
             raise AnalysisError(f"{site}: weights `{w.canon()[:100]}` (unrecognised form)")
         okn = any(N == n_ and mu == m_ for n_, m_ in zip(nums, mus))
-        if not okn and not (any(same_ingredients(N, n_) for n_ in nums) and any(same_ingredients(mu, m_) for m_ in mus)):
+        if not okn and (_unread(N, mu) or not (any(same_ingredients(N, n_) for n_ in nums) and any(same_ingredients(mu, m_) for m_ in mus))):
             raise AnalysisError(f"{site}: unnormalised weights `{N.canon()[:100]}`, mu `{mu.canon()[:40]}` (unrecognised form)")
         ck.ob("R1-weights", site, "log-rank-form", okn, f"N = {N.canon()[:120]}; mu = {mu.canon()}", "" if okn else "the unnormalised weights must be log(mu + 1/2) - log1p(arange(int(mu))) with mu = population / 2 (positive, decreasing), mu stored as int", where)
 
@@ -153,7 +218,7 @@ def r2_feedback_table(ck, repo, nf):
         checked.add("incumbent")
         if not ok:
             for b in BEST_FIELDS:
-                if got[b] is None or not (same_ingredients(got[b], improved[b], ("old",)) or same_ingredients(got[b], kept[b])):
+                if got[b] is None or _unread(got[b]) or not (same_ingredients(got[b], improved[b], ("old",)) or same_ingredients(got[b], kept[b])):
                     raise AnalysisError(f"{q}: {b} := `{got[b].canon()[:80] if got[b] is not None else None}` (unrecognised form)")
             want_txt = "replaced as a whole by the evaluated candidate (fitness, iteration, parameters of index it % population)" if rel < 0 else "kept as a whole" if rel > 0 else "replaced or kept as a whole"
             viol.setdefault("incumbent", (f"{ {b: got[b].canon()[:50] for b in BEST_FIELDS} } in the world [{model.describe(w)}]",
@@ -161,53 +226,147 @@ def r2_feedback_table(ck, repo, nf):
         # fitness slot and counter
         slots = [(b_, i_, v_) for (_n, b_, i_, v_) in sm.pe.effects if b_ == f"{POP}.fitness"]
         checked.add("records-fitness")
-        ok = len(slots) == 1 and slots[0][1] == K.canon() and slots[0][2] == fk
+        if len(slots) != 1:
+            # no / several subscript stores into population.fitness on this path: how the value is recorded was not read (a method call, a rebuilt list, ...)
+            raise AnalysisError(f"{q}: {len(slots)} indexed stores into {POP}.fitness on a path - how the fitness is recorded is not read (unrecognised form)")
+        ok = slots[0][1] == K.canon() and slots[0][2] == fk
         if not ok:
-            if len(slots) == 1 and not same_ingredients(slots[0][2], fk):
+            if _unread(slots[0][1], slots[0][2]) or not same_ingredients(slots[0][2], fk):
                 raise AnalysisError(f"{q}: fitness slot := `{slots[0][2].canon()[:80]}` (unrecognised form)")
+            if slots[0][1] is None or not set(re.findall(r"[A-Za-z_][A-Za-z_0-9]*", str(slots[0][1]))) <= ingredient_tokens(K):
+                raise AnalysisError(f"{q}: fitness slot index `{str(slots[0][1])[:80]}` (unrecognised form)")
             viol.setdefault("records-fitness", (f"population.fitness writes: {[(i_, v_.canon()[:40]) for _b, i_, v_ in slots]} ({'maximise' if mx else 'minimise'})",
                                                 "the sign-adjusted fitness (negated exactly when maximising) must be stored at the evaluated index k = it % population"))
         it = st.get(f"{ST}.it")
         checked.add("it+1")
         if not (it is not None and it == IT + Poly.const(1)):
-            if it is None or not same_ingredients(it, IT):
+            if it is None or _unread(it) or not same_ingredients(it, IT):
                 raise AnalysisError(f"{q}: evaluation counter := `{it.canon()[:60] if it is not None else None}` (unrecognised form)")
             viol.setdefault("it+1", (f"{ST}.it = {it.canon()}", "the evaluation counter advances by one per feedback"))
+    if viol:
+        # the table only sees what the path evaluation sees: a call that hands the state / population to a routine of the repository that
+        # was not expanded into this function (or a method of these objects) may do the bookkeeping the table misses
+        hidden = _hidden_effect_calls(repo, fn, mi, {ST, POP})
+        if hidden:
+            raise AnalysisError(f"{q}: `{short(hidden[0], 60)}` receives the optimiser state and is not read; the bookkeeping table is incomplete (unrecognised form)")
     for key in sorted(checked):
         v = viol.get(key)
         ck.ob("R2-incumbent", q, f"table:{key}", v is None, f"{n_worlds} order worlds, {len(sums)} paths" if v is None else v[0], "" if v is None else v[1], where)
     ck.floor("feedback-worlds", n_worlds, 20)
     # writers of best_* elsewhere
     transparent = repo.transparent_helpers()
+    frozen_api = load_known()
     for qual, f2, mi2 in repo.all_functions():
-        if not qual.startswith(CM) or qual == q or qual.endswith("CMAESState.create") or qual in transparent:
+        if not qual.startswith(CM) or qual == q or qual in transparent:
             continue
+        owner_, _, meth_ = qual.rpartition(".")
+        if meth_ in ("create", "__init__", "__post_init__") and repo.has(owner_) and _is_state_class(repo, owner_):
+            continue        # initial values of a new state
         for n in ast.walk(f2):
-            if isinstance(n, (ast.Assign, ast.AugAssign)):
+            if isinstance(n, (ast.Assign, ast.AugAssign, ast.AnnAssign)):
                 for tg in (n.targets if isinstance(n, ast.Assign) else [n.target]):
                     if isinstance(tg, ast.Attribute) and tg.attr in BEST_FIELDS:
-                        ck.ob("R2-incumbent", qual, f"foreign-writer:{tg.attr}", False, short(n), "the incumbent may only be written by set_evaluation_feedback", loc(mi2, n))
+                        is_state = _denotes_state(repo, mi2, f2, qual, tg.value)
+                        if is_state is False:
+                            continue        # a field of the same name of another kind of object (a result record, ...)
+                        if is_state is None:
+                            _undecided(ck, f"{qual}: `{short(n, 60)}` - whether `{short(tg.value, 30)}` is the optimiser state is not known (unrecognised form)")
+                        elif qual not in frozen_api:
+                            # a routine written after the reference tree whose calls were not all expanded: it may be part of set_evaluation_feedback
+                            _undecided(ck, f"{qual}: `{short(n, 60)}` writes the incumbent in a helper that was not expanded into its callers (unrecognised form)")
+                        else:
+                            ck.ob("R2-incumbent", qual, f"foreign-writer:{tg.attr}", False, short(n), "the incumbent may only be written by set_evaluation_feedback", loc(mi2, n))
     _incumbent_is_a_value(ck, repo, q, fn, mi, POP)
     gq = CM + "get_next_parameters"
     gfn = split_conditional_assignments(repo.func(gq))
     ck._keep.append(gfn)
     gp = param_names(gfn)
+    ck.need(len(gp) >= 3, f"{gq}: signature changed (anchor vanished)")
     gcfg = nf.cfg_of(gfn)
     genv = _env(gfn)
-    want = nf.poly(parse_expr(f"{gp[2]}.samples[{gp[1]}.it % {gp[0]}.n_samples_per_update]"), Scope(None, gfn._module, genv, gq), None)
+    # row k of the (population, parameters) matrix: samples[k] == samples[k, :] == samples[k, ...]
+    wants = [nf.poly(parse_expr(f"{gp[2]}.samples[{gp[1]}.it % {gp[0]}.n_samples_per_update{rest}]"), Scope(None, gfn._module, genv, gq), None) for rest in ("", ", :", ", ...")]
+    want = wants[0]
     NON_IDENTITY = ("clip", "minimum", "maximum", "tanh", "round", "floor", "abs", "where")
     for sm in summarise_paths(nf, gcfg, gfn._module, gq, genv, {}):
         g = sm.ret
         ck.need(g is not None, f"{gq}: path without return value")
-        ok = g == want
+        ok = any(g == w_ for w_ in wants)
         why = "the candidate handed out must be the one whose feedback index is it % population"
         if not ok:
             m_ = nf.meta.get(g.single_atom() or "", {})
-            if m_.get("fn", "").split(".")[-1] in NON_IDENTITY and m_.get("args") and any(a_ == want for a_ in m_["args"][:2]):
+            if m_.get("fn", "").split(".")[-1] in NON_IDENTITY and m_.get("args") and any(a_ == w_ for a_ in m_["args"][:2] for w_ in wants):
                 why = f"the candidate handed out is {m_['fn'].split('.')[-1]}(population.samples[k], ...), not the stored sample: the incumbent and the mean are then built from points that were never evaluated"
-            elif not same_ingredients(g, want):
+            elif _unread(g) or not same_ingredients(g, want):
                 raise AnalysisError(f"{gq}: returns `{g.canon()[:80]}` (unrecognised form)")
         ck.ob("R2-incumbent", gq, "same-index-as-feedback", ok, f"return {g.canon()[:100]}", "" if ok else why, loc(gfn._module, gfn))
+
+
+def _is_state_class(repo, cq):
+    try:
+        return CM + "CMAESState" in repo.mro(cq)
+    except AnalysisError:
+        return False
+
+
+def _denotes_state(repo, mi2, f2, qual, e):
+    """Is the expression (receiver of an attribute store) a CMAESState?  True / False when its declaration says so, None when not known."""
+    if not isinstance(e, ast.Name):
+        return None
+    a = f2.args
+    for i, arg in enumerate(a.posonlyargs + a.args + a.kwonlyargs):
+        if arg.arg != e.id:
+            continue
+        if i == 0 and arg.arg in ("self", "cls") and "." in qual and repo.has(qual.rpartition(".")[0]):
+            try:
+                repo.cls(qual.rpartition(".")[0])
+            except AnalysisError:
+                return None
+            return _is_state_class(repo, qual.rpartition(".")[0])
+        ann = arg.annotation
+        if isinstance(ann, ast.Constant) and isinstance(ann.value, str):
+            try:
+                ann = parse_expr(ann.value)
+            except SyntaxError:
+                return None
+        if not isinstance(ann, (ast.Name, ast.Attribute)):
+            return None
+        r = repo.resolve_expr(mi2, ann)
+        if not r or not repo.has(r):
+            return None
+        try:
+            repo.cls(r)
+        except AnalysisError:
+            return None
+        return _is_state_class(repo, r)
+    ds = [n for n in ast.walk(f2) if isinstance(n, (ast.Assign, ast.AnnAssign)) and any(isinstance(t, ast.Name) and t.id == e.id for t in (n.targets if isinstance(n, ast.Assign) else [n.target]))]
+    kinds = set()
+    for d in ds:
+        v = d.value
+        r = repo.resolve_expr(mi2, v.func) if isinstance(v, ast.Call) and isinstance(v.func, (ast.Name, ast.Attribute)) else None
+        if r and r.endswith(".create"):
+            r = r.rpartition(".")[0]
+        try:
+            kinds.add(_is_state_class(repo, r) if r and repo.has(r) and isinstance(repo.lookup(r)[1], ast.ClassDef) else None)
+        except AnalysisError:
+            kinds.add(None)
+    return kinds.pop() if len(kinds) == 1 else None
+
+
+def _hidden_effect_calls(repo, fn, mi, names):
+    """Calls in ``fn`` whose effect on the objects ``names`` the path evaluation cannot see: the object is handed to a routine of the
+    repository (its call was not expanded) or one of its own methods is called."""
+    out = []
+    for c in ast.walk(fn):
+        if not isinstance(c, ast.Call):
+            continue
+        if isinstance(c.func, ast.Attribute) and isinstance(c.func.value, ast.Name) and c.func.value.id in names:
+            out.append(c)
+            continue
+        r = repo.resolve_expr(mi, c.func) if isinstance(c.func, (ast.Name, ast.Attribute)) else None
+        if (r and repo.has(r)) and any(isinstance(a_, ast.Name) and a_.id in names for a_ in list(c.args) + [k.value for k in c.keywords]):
+            out.append(c)
+    return out
 
 
 INPLACE_METHODS = ("fill", "sort", "put", "partition", "itemset", "resize", "setfield", "__setitem__")
@@ -231,7 +390,13 @@ def _incumbent_is_a_value(ck, repo, q, fn, mi, POP):
     """The recorded best parameters are a value: if the storage the candidate is read from is ever overwritten in place, the stored
     incumbent must be a copy - an index into a host array is a view that changes with the storage."""
     # where do the candidate parameters come from (field of the population object)?
-    stores = [n for n in ast.walk(fn) if isinstance(n, ast.Assign) and any(isinstance(t, ast.Attribute) and t.attr == "best_params" for t in n.targets)]
+    stores = []      # (statement, stored expression); `a.x, a.best_params = u, v` stores v
+    for n in ast.walk(fn):
+        for t in (n.targets if isinstance(n, ast.Assign) else []):
+            if isinstance(t, ast.Attribute) and t.attr == "best_params":
+                stores.append((n, n.value))
+            elif isinstance(t, (ast.Tuple, ast.List)) and isinstance(n.value, (ast.Tuple, ast.List)) and len(t.elts) == len(n.value.elts) and not any(isinstance(x, ast.Starred) for x in t.elts + n.value.elts):
+                stores += [(n, v_) for t_, v_ in zip(t.elts, n.value.elts) if isinstance(t_, ast.Attribute) and t_.attr == "best_params"]
     if not stores:
         raise AnalysisError(f"{q}: no assignment to best_params (anchor vanished)")
 
@@ -242,8 +407,8 @@ def _incumbent_is_a_value(ck, repo, q, fn, mi, POP):
                 return resolve_local(ds[0].value, depth + 1)
         return e
     fields, views = set(), []
-    for st_ in stores:
-        v = resolve_local(st_.value)
+    for st_, stored in stores:
+        v = resolve_local(stored)
         copied = False
         while isinstance(v, ast.Call):
             d_ = dotted(v.func) or ""
@@ -260,7 +425,7 @@ def _incumbent_is_a_value(ck, repo, q, fn, mi, POP):
             if not copied:
                 views.append((st_, base.attr))
         elif not copied:
-            raise AnalysisError(f"{q}: best_params := `{short(st_.value, 60)}` - where the stored parameters come from is not recognised")
+            raise AnalysisError(f"{q}: best_params := `{short(stored, 60)}` - where the stored parameters come from is not recognised")
     # in-place writers of that field anywhere in the module
     writers, maybe = [], []
     for qual, f2, mi2 in repo.all_functions():
@@ -296,6 +461,49 @@ def _incumbent_is_a_value(ck, repo, q, fn, mi, POP):
           loc(mi, views[0][0]) if views else loc(mi, fn))
 
 
+def _object_of(cfg, e, at, depth=0):
+    """Which object an argument expression denotes: (defining nodes of the root variable, attribute path), following plain copies
+    `a = b` / `a = b.c`; None when the expression is not a variable or an attribute chain of one."""
+    path = []
+    while isinstance(e, ast.Attribute):
+        path.append(e.attr)
+        e = e.value
+    if not isinstance(e, ast.Name) or depth > 6:
+        return None
+    path = tuple(reversed(path))
+    ds = cfg.defs_of(at, e.id)
+    if not ds:
+        return None
+    if len(ds) == 1 and ds[0].kind == "assign" and isinstance(ds[0].value, (ast.Name, ast.Attribute)):
+        inner = _object_of(cfg, ds[0].value, ds[0].node, depth + 1)
+        return None if inner is None else (inner[0], inner[1] + path)
+    return frozenset(d.node for d in ds), path
+
+
+def _record_position(repo, mi, call: ast.Call, pos: int):
+    """Argument that fills position ``pos`` of a record constructed by ``call`` (tuple-like: NamedTuple / namedtuple / dataclass), by
+    position or by the name of the field at that position; None when not readable."""
+    if any(isinstance(a_, ast.Starred) for a_ in call.args) or any(k.arg is None for k in call.keywords):
+        return None
+    fields = None
+    f = call.func
+    if isinstance(f, ast.Call):
+        fields = NF._record_fields(ast.Assign(targets=[], value=f))
+    elif isinstance(f, (ast.Name, ast.Attribute)):
+        r = repo.resolve_expr(mi, f)
+        if r and repo.has(r):
+            fields = NF._record_fields(repo.lookup(r)[1])
+        elif isinstance(f, ast.Name):
+            for n in mi.tree.body:
+                if isinstance(n, ast.Assign) and len(n.targets) == 1 and isinstance(n.targets[0], ast.Name) and n.targets[0].id == f.id:
+                    fields = NF._record_fields(n)
+    if not fields or pos >= len(fields):
+        return None          # not the constructor of a record whose fields are known: what the call does with its arguments is not read
+    if len(call.args) > pos:
+        return call.args[pos]
+    return next((k.value for k in call.keywords if k.arg == fields[pos]), None)
+
+
 def r2_train_loop(ck, repo, nf):
     from .c15 import _role_of_counter
     q = CM + "train_cmaes"
@@ -311,26 +519,44 @@ def r2_train_loop(ck, repo, nf):
     ck.need(len(fbs) == 1 and len(sps) == 1, f"{q}: expected one set_params and one set_evaluation_feedback call per episode, found {len(sps)} / {len(fbs)}")
     (fbn, fbc), (spn, spc) = fbs[0], sps[0]
     fb_fn, sp_fn, gn_fn = repo.func(CM + "set_evaluation_feedback"), repo.func(CM + "set_params"), repo.func(CM + "get_next_parameters")
+    # a candidate that is also requested outside the episode loop (rotated loop: first candidate before the loop, the next one at the end of
+    # each episode) is not the shape this rule reads
+    ck.need(all(n.id in body for n, _c in calls_of(CM + "get_next_parameters")), f"{q}: get_next_parameters is also called outside the episode loop (unrecognised form)")
     fbb = bind_call(fb_fn, fbc)
     fparams = param_names(fb_fn)
+    ck.need(len(fparams) >= 4 and len(param_names(sp_fn)) >= 2 and len(param_names(gn_fn)) >= 3, f"{q}: signatures changed (anchor vanished)")
     spb = bind_call(sp_fn, spc)
     cand = spb.get(param_names(sp_fn)[1])
     cand_e, cand_at = cand, spn.id
-    if isinstance(cand, ast.Name):
-        ds = cfg.defs_of(spn.id, cand.id)
-        if len(ds) == 1 and ds[0].kind == "assign":
-            cand_e, cand_at = ds[0].value, ds[0].node
+    hops = 0
+    while isinstance(cand_e, ast.Name) and hops < 4:
+        ds = cfg.defs_of(cand_at, cand_e.id)
+        if len(ds) != 1 or ds[0].kind != "assign":
+            break
+        cand_e, cand_at, hops = ds[0].value, ds[0].node, hops + 1
     ck.need(isinstance(cand_e, ast.Call) and isinstance(cand_e.func, (ast.Name, ast.Attribute)) and repo.resolve_expr(mi, cand_e.func) == CM + "get_next_parameters",
-            f"{q}: the parameters written into the policy `{short(cand_e, 60)}` are not the result of get_next_parameters (unrecognised form)")
+            f"{q}: the parameters written into the policy `{short(cand_e, 60) if cand_e is not None else None}` are not the result of get_next_parameters (unrecognised form)")
     gb = bind_call(gn_fn, cand_e)
-    same_objs = all(isinstance(gb.get(a), ast.Name) and isinstance(fbb.get(b), ast.Name) and gb[a].id == fbb[b].id and
-                    [d.node for d in cfg.defs_of(cand_at, gb[a].id)] == [d.node for d in cfg.defs_of(fbn.id, fbb[b].id)]
-                    for a, b in zip(param_names(gn_fn)[:3], fparams[:3]))
-    order = cfg.dominates(spn.id, fbn.id)
+    # the same config / state / population objects: compared by what the argument expressions denote (reaching definitions through copies)
+    same_objs = True
+    for a, b in zip(param_names(gn_fn)[:3], fparams[:3]):
+        oa = _object_of(cfg, gb.get(a), cand_at) if gb.get(a) is not None else None
+        ob_ = _object_of(cfg, fbb.get(b), fbn.id) if fbb.get(b) is not None else None
+        if oa is None or ob_ is None:
+            raise AnalysisError(f"{q}: the `{b}` arguments `{short(gb.get(a), 40) if gb.get(a) is not None else None}` / `{short(fbb.get(b), 40) if fbb.get(b) is not None else None}` are not variables (unrecognised form)")
+        if oa != ob_:
+            if oa[1] or ob_[1]:
+                # reached through attributes of carriers: different expressions may still denote one object
+                raise AnalysisError(f"{q}: whether `{short(gb.get(a), 40)}` and `{short(fbb.get(b), 40)}` are the same object is not known (unrecognised form)")
+            same_objs = False       # two variables with different definitions
+    order = cfg.dominates(spn.id, fbn.id) and cfg.dominates(cand_at, fbn.id)
     ok = same_objs and order
     ck.ob("R2-incumbent", q, "evaluates-what-it-sets", ok, f"`{short(spc, 70)}` ... `{short(fbc, 70)}`",
           "" if ok else "each episode must evaluate the candidate that was written into the policy: same config / state / population between get_next_parameters and set_evaluation_feedback, in this order", loc(mi, fbc))
     ret_arg = fbb.get(fparams[3])
+    while isinstance(ret_arg, ast.Call) and isinstance(ret_arg.func, (ast.Name, ast.Attribute)) and len(ret_arg.args) == 1 and not ret_arg.keywords \
+            and (repo.resolve_expr(mi, ret_arg.func) or dotted(ret_arg.func) or "").split(".")[-1] in ("float", "asarray", "array"):
+        ret_arg = ret_arg.args[0]      # value-preserving conversions of the return
     ck.need(isinstance(ret_arg, ast.Name), f"{q}: feedback argument `{short(ret_arg) if ret_arg is not None else None}` (unrecognised form)")
     role = _role_of_counter(cfg, L, ret_arg.id, body)
     if role is None:
@@ -342,35 +568,100 @@ def r2_train_loop(ck, repo, nf):
     # reported sign
     confs = calls_of(CM + "CMAESConfig.create")
     ck.need(len(confs) == 1, f"{q}: CMAESConfig.create call not found")
-    m = repo.method(CM + "CMAESConfig", "create", inherited=False)
+    m = repo.method(CM + "CMAESConfig", "create")
+    ck.need(m is not None, "CMAESConfig.create not found")
+    cpar = [p_ for p_ in param_names(m[1]) if p_ not in ("cls", "self")]
+    ck.need(len(cpar) >= 3, "CMAESConfig.create: signature changed (anchor vanished)")
     cb = bind_call(m[1], confs[0][1], skip_self=True)
-    mxv = cb.get("maximize")
-    ck.need(isinstance(mxv, ast.Constant) and isinstance(mxv.value, bool), f"{q}: maximize is not a literal")
+    mxv = cb.get(cpar[2])          # maximize: third option of the recorded signature
+    ck.need(mxv is not None, f"{q}: the maximize option of CMAESConfig.create is not passed (unrecognised form)")
+    mxp = nf.poly(mxv, Scope(cfg, mi, {}, q), confs[0][0].id)
+    ck.need(mxp.is_const() and mxp.const_value() in (0, 1), f"{q}: maximize `{short(mxv, 40)}` is not a constant (unrecognised form)")
+    maximise = mxp.const_value() == 1
     rets = [n for n in cfg.nodes if n.kind == "stmt" and isinstance(n.ast, ast.Return) and n.ast.value is not None]
     ck.need(len(rets) == 1, f"{q}: expected one return")
-    rv = rets[0].ast.value
-    elts = None
-    if isinstance(rv, ast.Call) and len(rv.args) >= 2:
-        elts = rv.args
-    elif isinstance(rv, ast.Tuple):
-        elts = rv.elts
-    ck.need(elts is not None and len(elts) >= 2, f"{q}: result construction (unrecognised form)")
-    rexpr = elts[1]
-    if isinstance(rexpr, ast.Name):
-        ds = cfg.defs_of(rets[0].id, rexpr.id)
-        ck.need(len(ds) == 1 and ds[0].kind == "assign", f"{q}: reported best fitness `{rexpr.id}` (unrecognised form)")
-        rexpr = ds[0].value
-    got = nf.poly(rexpr, Scope(None, mi, {}, q), None)
-    st_name = fbb[fparams[1]].id
-    want = nf.poly(parse_expr(f"{'-' if mxv.value else ''}{st_name}.best_fitness"), Scope(None, mi, {}, q), None)
-    ok = got == want
-    if not ok and not same_ingredients(got, want):
+    rv, rv_at = rets[0].ast.value, rets[0].id
+
+    def after_loop(nid):
+        """Evaluated after the last episode: the state it reads is final."""
+        return nid not in body and cfg.dominates(L.outer_header, nid)
+
+    def resolved(e, at, depth=0):
+        """The expression with the local variables that are defined once, after the training loop, replaced by their definitions."""
+        if depth > 6:
+            raise AnalysisError(f"{q}: reported best fitness (unrecognised form)")
+        e = ast.fix_missing_locations(ast.copy_location(parse_expr(ast.unparse(e)), e))
+        names = [x for x in ast.walk(e) if isinstance(x, ast.Name)]
+        sub = {}
+        for x in names:
+            ds = cfg.defs_of(at, x.id)
+            if not ds or (len(ds) == 1 and ds[0].kind == "param"):
+                continue
+            if len(ds) == 1 and ds[0].kind == "assign" and after_loop(ds[0].node):
+                sub[x.id] = resolved(ds[0].value, ds[0].node, depth + 1)
+        if not sub:
+            return e
+
+        class _S(ast.NodeTransformer):
+            def visit_Name(self, n_):
+                return sub.get(n_.id, n_)
+        return ast.fix_missing_locations(_S().visit(e)) if not isinstance(e, ast.Name) else sub.get(e.id, e)
+    if isinstance(rv, ast.Name):
+        ds = cfg.defs_of(rv_at, rv.id)
+        ck.need(len(ds) == 1 and ds[0].kind == "assign" and after_loop(ds[0].node), f"{q}: result construction (unrecognised form)")
+        rv, rv_at = ds[0].value, ds[0].node
+    rexpr = None
+    if isinstance(rv, ast.Tuple) and len(rv.elts) >= 2 and not any(isinstance(x, ast.Starred) for x in rv.elts):
+        rexpr = rv.elts[1]
+    elif isinstance(rv, ast.Call):
+        rexpr = _record_position(repo, mi, rv, 1)
+    ck.need(rexpr is not None, f"{q}: result construction (unrecognised form)")
+    ck.need(after_loop(rv_at), f"{q}: the result is built before the training loop ends (unrecognised form)")
+    rex = resolved(rexpr, rv_at)
+    got = nf.poly(rex, Scope(None, mi, {}, q), None)
+    # +-(S.best_fitness) where S is the state object that receives the feedback: the sign is read from the normal form, the object from the expression
+    reads = [x for x in ast.walk(rex) if isinstance(x, ast.Attribute) and x.attr == "best_fitness"]
+    sign = None
+    if len(got.terms) == 1 and len(reads) == 1 and not _unread(got):
+        (mono, c), = got.terms.items()
+        if len(mono) == 1 and mono[0][1] == 1 and nf.meta.get(mono[0][0], {}).get("fn") == "attr" and c in (1, -1):
+            base = nf.meta[mono[0][0]]["args"][0]
+            if mono[0][0] == f"{base.canon()}.best_fitness":
+                sign = c
+    if sign is None:
         raise AnalysisError(f"{q}: reported best fitness `{got.canon()[:80]}` (unrecognised form)")
-    ck.ob("R2-incumbent", q, "reported-sign", ok, f"maximize={mxv.value}; reported best fitness = {got.canon()}", "" if ok else "returns are maximised through negation; the reported best fitness must be un-negated", loc(mi, rets[0].ast))
-    ck.ob("R2-incumbent", q, "maximises-return", mxv.value is True, f"CMAESConfig.create(maximize={mxv.value})", "" if mxv.value else "episode returns are to be maximised", loc(mi, confs[0][1]))
+    o_rep, o_fb = _object_of(cfg, reads[0].value, rv_at), _object_of(cfg, fbb[fparams[1]], fbn.id)
+    if o_rep is None or o_rep != o_fb:
+        raise AnalysisError(f"{q}: whether the reported `{short(reads[0], 50)}` belongs to the state that receives the feedback is not known (unrecognised form)")
+    ok = sign == (-1 if maximise else 1)
+    ck.ob("R2-incumbent", q, "reported-sign", ok, f"maximize={maximise}; reported best fitness = {got.canon()}", "" if ok else "returns are maximised through negation; the reported best fitness must be un-negated", loc(mi, rets[0].ast))
+    ck.ob("R2-incumbent", q, "maximises-return", maximise, f"CMAESConfig.create(maximize={maximise})", "" if maximise else "episode returns are to be maximised", loc(mi, confs[0][1]))
 
 
 # ---- R3 / R4 -------------------------------------------------------------------------------------------------------------------------------
+def _selection_specs(CONF, POP, which):
+    """Spellings of `the mu best / worst candidates, best / worst first` of the evaluated population.  The fitness is a vector, so the
+    ranking axis may be 0, -1 or left out; x[:k] == x[0:k]; rows may be gathered before or after cutting the ranking."""
+    fit = f"jnp.asarray({POP}.fitness)"
+    out = []
+    for rk in (f"jnp.argsort({fit}, axis=0)", f"jnp.argsort({fit})", f"jnp.argsort({fit}, axis=-1)"):
+        for lo in ("", "0"):
+            if which == "best":
+                out += [f"{POP}.samples[{rk}[{lo}:{CONF}.mu]]", f"{POP}.samples[{rk}][{lo}:{CONF}.mu]"]
+            elif which == "worst":
+                out += [f"{POP}.samples[{rk}[::-1][{lo}:{CONF}.mu]]", f"{POP}.samples[{rk}[::-1]][{lo}:{CONF}.mu]"]
+        if which == "worst":
+            out += [f"{POP}.samples[{rk}[-{CONF}.mu:][::-1]]"]
+        elif which == "worst-unordered":
+            out += [f"{POP}.samples[{rk}[-{CONF}.mu:]]"]
+    return out
+
+
+def _recombinations(nf, sc0, CONF, selections):
+    """Normal forms of sum_i w_i x_i over the rows of the selections (spellings of the broadcast axis and of the reduction axis)."""
+    return [nf.poly(parse_expr(f"jnp.sum({CONF}.weights[:, {na}] * {sel}, {ax})"), sc0, None) for sel in selections for na in ("jnp.newaxis", "None", "np.newaxis") for ax in ("axis=0", "0")]
+
+
 def r34_update(ck, repo, nf):
     q = CM + "update_search_distribution"
     fn = repo.func(q)
@@ -383,6 +674,9 @@ def r34_update(ck, repo, nf):
     ck.count("update-paths", len(paths))
     sc0 = Scope(None, mi, env, q)
     want_mean = nf.poly(parse_expr(f"jnp.sum({CONF}.weights[:, jnp.newaxis] * {POP}.samples[jnp.argsort(jnp.asarray({POP}.fitness), axis=0)[:{CONF}.mu]], axis=0)"), sc0, None)
+    want_means = _recombinations(nf, sc0, CONF, _selection_specs(CONF, POP, "best"))
+    worst_means = _recombinations(nf, sc0, CONF, _selection_specs(CONF, POP, "worst") + _selection_specs(CONF, POP, "worst-unordered"))
+    ck.need(want_mean in want_means, f"{q}: specification of the recombination (internal)")
     done = set()
     for p in paths:
         pe = PathEval(nf, cfg, mi, q, env)
@@ -393,18 +687,21 @@ def r34_update(ck, repo, nf):
         if key in done:
             continue
         done.add(key)
-        ok = mean == want_mean
-        if not ok and not same_ingredients(mean, want_mean, ("old", ST, "mean", "last_mean")):
+        ok = any(mean == w_ for w_ in want_means)
+        # positive evidence of another value: the weighted worst candidates, or the documented ingredients combined differently
+        if not ok and not any(mean == w_ for w_ in worst_means) and (_unread(mean) or not same_ingredients(mean, want_mean, ("old", ST, "mean", "last_mean"))):
             raise AnalysisError(f"{q}: mean' = `{mean.canon()[:100]}` (unrecognised form)")
         ck.ob("R3-mean", q, "recombination", ok, f"mean' = {mean.canon()[:150]}", "" if ok else f"must be the weight-averaged best mu candidates: {want_mean.canon()[:120]}", loc(mi, fn))
         ok = last == olds[f"{ST}.mean"]
-        if not ok and not same_ingredients(last, want_mean, ("old", ST, "mean", "last_mean")):
+        if not ok and (_unread(last) or not same_ingredients(last, want_mean, ("old", ST, "mean", "last_mean"))):
             raise AnalysisError(f"{q}: last_mean' = `{last.canon()[:100]}` (unrecognised form)")
         ck.ob("R3-mean", q, "last-mean", ok, f"last_mean' = {last.canon()[:100]}", "" if ok else "last_mean must hold the mean before this update", loc(mi, fn))
         # var' = old.var * exp(min(0.6, X))^2
         OV = f"old.{ST}.var"
         verdict = None
-        if len(var.terms) == 1:
+        # the uncapped exponent, from the evolution path of this very path
+        uncapped = nf.poly(parse_expr(f"({CONF}.cs / {CONF}.damps) * (jnp.linalg.norm(PS) ** 2 / {CONF}.n_params - 1)"), Scope(None, mi, {**env, "PS": pe.store[f"{ST}.ps"]}, q), None)
+        if len(var.terms) == 1 and not _unread(var):
             (mono, c), = var.terms.items()
             d = dict(mono)
             others = [a for a in d if a != OV]
@@ -412,11 +709,14 @@ def r34_update(ck, repo, nf):
                 inner = nf.meta[others[0]]["args"][0]
                 scale = d[others[0]]
                 im = nf.meta.get(inner.single_atom() or "", {})
-                if im.get("fn") in ("min", "minimum") or im.get("fn", "").endswith(".minimum"):
+                if im.get("fn", "").split(".")[-1] in ("min", "minimum") and not im.get("kws"):
                     consts = [a.const_value() for a in im["args"] if a.is_const()]
-                    verdict = scale == 2 and len(im["args"]) == 2 and len(consts) == 1 and consts[0] * 5 == 3
-                    why = f"cap constant {[float(x) for x in consts]} with exponent {scale}"
-                elif not any("min" in t for t in inner.atoms()):
+                    if len(im["args"]) == 2 and len(consts) == 1:
+                        # min(c, X): decided by the constant and the power of the factor
+                        verdict = scale == 2 and consts[0] * 5 == 3
+                        why = f"cap constant {[float(x) for x in consts]} with exponent {scale}"
+                elif inner == uncapped or same_ingredients(inner, uncapped):
+                    # the exponent is the raw update (or its ingredients in another combination): nothing bounds it
                     verdict, why = False, "no cap on the exponent"
         if verdict is None:
             raise AnalysisError(f"{q}: var' = `{var.canon()[:120]}` (unrecognised form)")
@@ -424,11 +724,14 @@ def r34_update(ck, repo, nf):
 
 
 # ---- R7 ------------------------------------------------------------------------------------------------------------------------------------
+MATRIX_PRODUCTS = ("dot", "matmul")     # a.dot(b), jnp.dot / jnp.matmul (the normal form keeps no structure for `a @ b`: undecided)
+
+
 def _quadratic_form(nf, atom):
     """(X, W, Y) for an atom that denotes X^T diag(W) Y, else None."""
     m = nf.meta.get(atom, {})
     fname = m.get("fn", "").split(".")[-1]
-    if fname not in ("dot", "matmul") or len(m.get("args", [])) != 2:
+    if fname not in MATRIX_PRODUCTS or len(m.get("args", [])) != 2:
         return None
     left, right = m["args"]
     lm = nf.meta.get(left.single_atom() or "", {})
@@ -437,7 +740,7 @@ def _quadratic_form(nf, atom):
     def transposed(p):
         mm = nf.meta.get(p.single_atom() or "", {})
         return mm["args"][0] if mm.get("fn", "").split(".")[-1] in ("T", "transpose") and len(mm.get("args", [])) == 1 else None
-    if lf in ("dot", "matmul") and len(lm.get("args", [])) == 2:
+    if lf in MATRIX_PRODUCTS and len(lm.get("args", [])) == 2:
         x = transposed(lm["args"][0])
         dm = nf.meta.get(lm["args"][1].single_atom() or "", {})
         if x is not None and dm.get("fn", "").split(".")[-1] == "diag" and len(dm.get("args", [])) == 1:
@@ -481,8 +784,11 @@ def r7_covariance(ck, repo, nf):
     CONF, ST, POP = param_names(fn)[:3]
     olds = {f"{ST}.{k}": Poly.atom(f"old.{ST}.{k}") for k in ("mean", "last_mean", "var", "ps", "pc", "cov", "invsqrtC", "it", "eigen_decomp_updated")}
     sc0 = Scope(None, mi, env, q)
-    best = nf.poly(parse_expr(f"{POP}.samples[jnp.argsort(jnp.asarray({POP}.fitness), axis=0)[:{CONF}.mu]]"), sc0, None)
-    worst = nf.poly(parse_expr(f"{POP}.samples[jnp.argsort(jnp.asarray({POP}.fitness), axis=0)[::-1][:{CONF}.mu]]"), sc0, None)
+    # the selections of the mu best / worst candidates (every spelling of _selection_specs), as atoms
+    best_atoms = {nf.poly(parse_expr(t_), sc0, None).single_atom() for t_ in _selection_specs(CONF, POP, "best")} - {None}
+    worst_atoms = {nf.poly(parse_expr(t_), sc0, None).single_atom() for t_ in _selection_specs(CONF, POP, "worst")} - {None}
+    if not best_atoms or not worst_atoms:
+        raise AnalysisError(f"{q}: selection of the best / worst candidates has no atomic normal form")
     SEL = Poly.atom("⟨selected⟩")
     OC = f"old.{ST}.cov"
     done = set()
@@ -499,7 +805,7 @@ def r7_covariance(ck, repo, nf):
         forms, ranks = {}, {}
         for mono, c in cov.terms.items():
             d = dict(mono)
-            mats = [a for a in d if a == OC or nf.meta.get(a, {}).get("fn", "").split(".")[-1] in ("dot", "matmul", "outer")]
+            mats = [a for a in d if a == OC or nf.meta.get(a, {}).get("fn", "").split(".")[-1] in MATRIX_PRODUCTS + ("outer",)]
             if len(mats) != 1 or d[mats[0]] != 1:
                 raise AnalysisError(f"{q}: covariance term `{Poly({mono: c}).canon()[:100]}` is not a scalar multiple of the old covariance, an outer product or a quadratic form (unrecognised form)")
             a = mats[0]
@@ -515,22 +821,24 @@ def r7_covariance(ck, repo, nf):
         if not forms:
             raise AnalysisError(f"{q}: no rank-mu quadratic form in cov' (anchor vanished)")
         for a, args in ranks.items():
-            ok = len(args) == 2 and args[0] == args[1]
+            ck.need(len(args) == 2 and not nf.meta[a].get("kws"), f"{q}: `{a[:80]}` (unrecognised form)")
+            ok = args[0] == args[1]
+            if not ok:
+                _evident(q, f"the rank-one term `{a[:80]}`", *args)
             ck.ob("R7-covariance-form", q, "rank-one-symmetric", ok, f"outer({args[0].canon()[:50]}, {args[1].canon()[:50] if len(args) > 1 else ''})", "" if ok else "outer(a, b) with a != b is not symmetric: the covariance loses symmetry", where)
         per_sel = {}
         for a, ((x, w, y), coefs) in forms.items():
             n_forms += 1
             ok = x == y
+            if not ok:
+                _evident(q, f"the quadratic form `{a[:80]}`", x, y)
             ck.ob("R7-covariance-form", q, f"quadratic-form-symmetric:{len(per_sel)}", ok, f"X^T diag(w) Y with X = {x.canon()[:80]}", "" if ok else f"the two factors differ (Y = {y.canon()[:80]}): the term is not symmetric", where)
-            kind = "best" if any(at in x.atoms() for at in best.atoms()) and not any(at in x.atoms() for at in worst.atoms() - best.atoms()) else "worst" if any(at in x.atoms() for at in worst.atoms()) else None
             # normalise the selection away
-            b_at, w_at = best.single_atom(), worst.single_atom()
-            if b_at is None or w_at is None:
-                raise AnalysisError(f"{q}: selection of the best / worst candidates has no atomic normal form")
-            if w_at in x.atoms():
-                per_sel["worst"] = (x.subst({w_at: SEL}), w, x)
-            elif b_at in x.atoms():
-                per_sel["best"] = (x.subst({b_at: SEL}), w, x)
+            w_in, b_in = sorted(worst_atoms & x.atoms()), sorted(best_atoms & x.atoms())
+            if len(w_in) == 1 and not b_in:
+                per_sel["worst"] = (x.subst({w_in[0]: SEL}), w, x)
+            elif len(b_in) == 1 and not w_in:
+                per_sel["best"] = (x.subst({b_in[0]: SEL}), w, x)
             else:
                 raise AnalysisError(f"{q}: quadratic form over `{x.canon()[:100]}` - neither the best nor the worst mu candidates of the ranking (unrecognised form)")
         if "best" not in per_sel:
@@ -538,7 +846,7 @@ def r7_covariance(ck, repo, nf):
         if "worst" in per_sel:
             (xb, wb, rawb), (xw, ww, raww) = per_sel["best"], per_sel["worst"]
             ok = xb == xw and (wb is None or ww is None or wb == ww)
-            if not ok and not (_affine_in(xw, "⟨selected⟩") and _affine_in(xb, "⟨selected⟩") and (wb is None or ww is None or wb == ww or same_ingredients(wb, ww))):
+            if not ok and (_unread(xw, xb, wb, ww) or not (_affine_in(xw, "⟨selected⟩") and _affine_in(xb, "⟨selected⟩") and (wb is None or ww is None or wb == ww or same_ingredients(wb, ww)))):
                 raise AnalysisError(f"{q}: negative update over `{raww.canon()[:100]}` (unrecognised form)")
             ck.ob("R7-covariance-form", q, "negative-update-mirrors-positive", ok, f"worst: {raww.canon()[:110]}  |  best: {rawb.canon()[:110]}",
                   "" if ok else "the negative rank-mu term is not the positive one with the worst candidates in place of the best (centre / step-size scaling / weights differ): the subtraction is mis-scaled and can drive variances negative", where)
@@ -598,6 +906,16 @@ UNFLATTEN = ("jax.tree_util.tree_unflatten", "jax.tree.unflatten", "jax.tree_unf
 
 def _is_param_state(t, net):
     return t[0] == "call" and t[1] == "flax.nnx.state" and len(t[2]) == 2 and t[2][0] == ("param", net) and t[2][1] == ("global", "flax.nnx.Param") and not t[3]
+
+
+def _param_state_verdict(site, t, net):
+    """True: the term is nnx.state(net, nnx.Param).  False: it is positively something else - nnx.state of another parameter or with another
+    set of (resolved) filters.  Anything else (a helper that was not expanded, nnx.split, a merge of definitions, ...) is not read."""
+    if _is_param_state(t, net):
+        return True
+    if t[0] == "call" and t[1] == "flax.nnx.state" and t[2] and not t[3] and t[2][0][0] == "param" and all(f_[0] == "global" and str(f_[1]).startswith("flax.") for f_ in t[2][1:]):
+        return False
+    raise AnalysisError(f"{site}: the state `{_show(t)}` whose leaves are used is not read as nnx.state(net, ...) (unrecognised form)")
 
 
 def _state_of_leaves(t):
@@ -674,7 +992,7 @@ def r5_flat_set(ck, repo, nf):
     ck.need(ew is not None, f"{fq}: `{short(rv.args[0], 60)}` is not an element-wise ravel of the leaves (unrecognised form)")
     st = _state_of_leaves(T.val(ew[0], ew[1]))
     ck.need(st is not None, f"{fq}: the raveled sequence `{short(ew[0], 50)}` is not a pytree leaf list (unrecognised form)")
-    ok = _is_param_state(st, net)
+    ok = _param_state_verdict(fq, st, net)
     ck.ob("R5-flat-set", fq, "leaf-order-and-ravel", ok, f"concatenate(ravel(leaf) for leaf in leaves({_show(st)}))", "" if ok else "flat_params must concatenate the raveled leaves of nnx.state(net, nnx.Param) in pytree order", loc(f._module, f))
     # -- set_params ----------------------------------------------------------------------------------------------------------------
     cfg = nf.cfg_of(s)
@@ -684,7 +1002,9 @@ def r5_flat_set(ck, repo, nf):
            if isinstance(c, ast.Call) and isinstance(c.func, (ast.Name, ast.Attribute)) and repo.resolve_expr(T.mi, c.func) == "flax.nnx.update"]
     ck.need(len(ups) == 1 and len(ups[0][1].args) == 2, f"{sq}: expected one nnx.update(net, state) call")
     un, uc = ups[0]
-    ok_net = T.val(uc.args[0], un.id) == ("param", net)
+    upd_target = T.val(uc.args[0], un.id)
+    ck.need(upd_target[0] == "param", f"{sq}: the object updated by nnx.update `{short(uc.args[0], 40)}` is not a parameter (unrecognised form)")
+    ok_net = upd_target == ("param", net)
     new_state = T.val(uc.args[1], un.id)
     ck.need(new_state[0] == "call" and new_state[1] in UNFLATTEN and len(new_state[2]) == 2, f"{sq}: the written state `{short(uc.args[1], 50)}` is not a tree_unflatten(...) (unrecognised form)")
     td_state = _state_of_treedef(new_state[2][0])
@@ -695,7 +1015,7 @@ def r5_flat_set(ck, repo, nf):
     lp = loops[0]
     lv_state = _state_of_leaves(T.val(lp.ast.iter, lp.id))
     ck.need(lv_state is not None and isinstance(lp.ast.target, ast.Name), f"{sq}: the loop does not iterate over pytree leaves (unrecognised form)")
-    ok = ok_net and _is_param_state(td_state, net) and _is_param_state(lv_state, net)
+    ok = all([ok_net, _param_state_verdict(sq, td_state, net), _param_state_verdict(sq, lv_state, net)])
     ck.ob("R5-flat-set", sq, "same-filter-and-order", ok, f"leaves({_show(lv_state)}), treedef({_show(td_state)}) -> tree_unflatten -> nnx.update({_show(T.val(uc.args[0], un.id))}, .)",
           "" if ok else "set_params must use the same Param filter and leaf order as flat_params and write back into the same network with nnx.update", loc(s._module, s))
     # loop-carried variables get symbolic entry values; the body is straight-line
@@ -722,8 +1042,25 @@ def r5_flat_set(ck, repo, nf):
     C = leaves_arg.id
     grown = pe.env[C]
     offs = [v for v in carried if v != C and pe.env[v] == Poly.atom(f"IN.{v}") + size]
+    if not offs:
+        # positive evidence of a wrong advance: a running variable that grows by something built from the leaf's shape only
+        steps = [(v, pe.env[v] - Poly.atom(f"IN.{v}")) for v in carried if v != C and f"IN.{v}" in pe.env[v].atoms()]
+        steps = [(v, d_) for v, d_ in steps if d_.terms and not any("IN." in a_ for a_ in d_.atoms())]
+        if not any(not _unread(d_) and same_ingredients(d_, size, ("np", "jnp", "numpy", "jax")) for _v, d_ in steps):
+            raise AnalysisError(f"{sq}: no loop-carried offset that advances by prod(leaf.shape): {[(v, pe.env[v].canon()[:60]) for v in carried if v != C]} (unrecognised form)")
     want_any = None
     ok_slice = False
+
+    def initial(d):
+        """Expression that a definition before the loop gives its variable (plain / annotated assignment, position of a tuple assignment)."""
+        v = d.value
+        if d.kind == "unpack":
+            for i in d.path:
+                if not (isinstance(v, (ast.Tuple, ast.List)) and isinstance(i, int) and i < len(v.elts) and not any(isinstance(x, ast.Starred) for x in v.elts)):
+                    return None
+                v = v.elts[i]
+            return v
+        return v if d.kind == "assign" else None
     for o in offs:
         want = nf.poly(parse_expr("CONT + [VEC[OFF:OFF + SIZE].reshape(LEAF.shape)]"), Scope(None, s._module, {"CONT": Poly.atom(f"IN.{C}"), "VEC": env0[vec], "OFF": Poly.atom(f"IN.{o}"), "SIZE": size, "LEAF": pe.env[lp.ast.target.id]}, sq), None)
         want_any = want
@@ -732,11 +1069,21 @@ def r5_flat_set(ck, repo, nf):
             # the offset starts at 0 and the container empty
             d0 = [d for d in cfg.defs_of(lp.id, o) if d.node not in lbody]
             c0 = [d for d in cfg.defs_of(lp.id, C) if d.node not in lbody]
-            ok0 = len(d0) == 1 and isinstance(d0[0].value, ast.Constant) and d0[0].value.value == 0 and len(c0) == 1 and isinstance(c0[0].value, (ast.List,)) and not c0[0].value.elts
-            ck.ob("R5-flat-set", sq, "offset-starts-at-zero", ok0, f"`{o}` and `{C}` before the loop", "" if ok0 else "the first leaf must start at position 0 of the flat vector and the container must start empty", loc(s._module, lp.ast))
+            ck.need(len(d0) == 1 and len(c0) == 1 and initial(d0[0]) is not None and initial(c0[0]) is not None, f"{sq}: initial values of `{o}` / `{C}` before the loop (unrecognised form)")
+            o_init = nf.poly(initial(d0[0]), Scope(cfg, s._module, {}, sq), d0[0].node)
+            c_init = initial(c0[0])
+            if isinstance(c_init, ast.Call) and isinstance(c_init.func, ast.Name) and c_init.func.id in ("list", "tuple") and not c_init.args and not c_init.keywords and not cfg.defs_of(c0[0].node, c_init.func.id):
+                c_empty = True         # list() == []
+            elif isinstance(c_init, (ast.List, ast.Tuple)):
+                c_empty = not c_init.elts
+            else:
+                raise AnalysisError(f"{sq}: initial value `{short(c_init, 40)}` of `{C}` (unrecognised form)")
+            ck.need(o_init.is_const(), f"{sq}: initial value `{o_init.canon()[:40]}` of `{o}` is not a constant (unrecognised form)")
+            ok0 = o_init.const_value() == 0 and c_empty
+            ck.ob("R5-flat-set", sq, "offset-starts-at-zero", ok0, f"`{o}` = {o_init.canon()} and `{C}` = {short(c_init, 30)} before the loop", "" if ok0 else "the first leaf must start at position 0 of the flat vector and the container must start empty", loc(s._module, lp.ast))
     ck.ob("R5-flat-set", sq, "offset-advance", bool(offs), f"loop-carried {[(v, pe.env[v].canon()[:60]) for v in carried if v != C]}", "" if offs else "the read offset must advance by prod(leaf.shape) per leaf", loc(s._module, lp.ast))
     if offs and not ok_slice:
-        if want_any is not None and not same_ingredients(grown, want_any, ("np", "jnp")):
+        if want_any is not None and (_unread(grown) or not same_ingredients(grown, want_any, ("np", "jnp"))):
             raise AnalysisError(f"{sq}: appended leaf `{grown.canon()[:120]}` (unrecognised form)")
     if offs:
         ck.ob("R5-flat-set", sq, "slice-and-reshape", ok_slice, f"{grown.canon()[:140]}", "" if ok_slice else "each leaf must take the slice [offset, offset+size) of the flat vector reshaped to its shape", loc(s._module, lp.ast))
@@ -757,6 +1104,26 @@ def _show(t, depth=0):
 
 
 # ---- R6 ------------------------------------------------------------------------------------------------------------------------------------
+def _comparisons_in(txt):
+    """Texts of the comparison atoms Lt(..) / LtE(..) / Gt(..) / GtE(..) that occur in a canonical form (balanced parentheses)."""
+    out = []
+    for m_ in re.finditer(r"(?<![A-Za-z_0-9])(?:LtE|Lt|GtE|Gt)\(", txt):
+        depth, i = 1, m_.end()
+        while i < len(txt) and depth:
+            depth += {"(": 1, ")": -1}.get(txt[i], 0)
+            i += 1
+        out.append(txt[m_.end():i - 1])
+    return out
+
+
+def _root_definitions(cfg, name, at, depth=0):
+    """Defining nodes of the object a variable holds, through plain copies `a = b`."""
+    ds = cfg.defs_of(at, name)
+    if len(ds) == 1 and ds[0].kind == "assign" and isinstance(ds[0].value, ast.Name) and depth < 6:
+        return _root_definitions(cfg, ds[0].value.id, ds[0].node, depth + 1)
+    return sorted(d.node for d in ds)
+
+
 def r6_cem(ck, repo, nf):
     q = "rl_blox.blox.cross_entropy_method.cem_update"
     fn = repo.func(q)
@@ -773,14 +1140,23 @@ def r6_cem(ck, repo, nf):
     if okm and okv:
         ck.ob("R6-cem", q, "elites", True, f"mean' = {got.elems[0].canon()[:130]}", "", loc(fn._module, fn))
     else:
+        _evident(q, "the updated mean / variance", got.elems[0], got.elems[1])
         txt = got.elems[0].canon() + " " + got.elems[1].canon()
-        thresholded = any(t in txt for t in ("LtE(", "Lt(", "GtE(", "Gt(")) and FI in txt
+        # the n_elite candidates with the smallest fitness, in the same spellings
+        small_specs = [f"jnp.take({SM}, jax.lax.top_k(-{FI}, {NE})[1], axis=0)", f"{SM}[jax.lax.top_k(-{FI}, {NE})[1]]", f"{SM}[jnp.argsort({FI})[:{NE}]]", f"{SM}[jnp.argsort(-{FI})[-{NE}:]]"]
+        smallest = any(got.elems[0] == nf6.poly(parse_expr(f"{AL} * {ME} + (1.0 - {AL}) * jnp.mean({e}, axis=0)"), sc6, None) for e in small_specs) \
+            or any(got.elems[1] == nf6.poly(parse_expr(f"{AL} * {VA} + (1.0 - {AL}) * jnp.var({e}, axis=0)"), sc6, None) for e in small_specs) \
+            or f"top_k(-{FI}" in txt or f"argsort({FI})[:{NE}]" in txt or f"argsort(-{FI})[-{NE}:]" in txt
+        # a comparison of the fitness values with something (a threshold) inside the update
+        thresholded = any(re.search(rf"(?<![A-Za-z_0-9.]){re.escape(FI)}(?![A-Za-z_0-9])", c_) for c_ in _comparisons_in(txt))
+        documented = ingredient_tokens(nf6.poly(parse_expr(f"{AL} * {ME} + (1.0 - {AL}) * jnp.mean({SM}, axis=0) + {AL} * {VA} + (1.0 - {AL}) * jnp.var({SM}, axis=0) + {FI} + {NE}"), sc6, None))
         if thresholded:
             ck.ob("R6-cem", q, "elites", False, f"mean' = {got.elems[0].canon()[:150]}",
                   "the elite set is defined by a fitness threshold (comparison), not by selecting n_elite candidates: with tied fitness values more than n_elite candidates enter the update", loc(fn._module, fn))
-        elif f"top_k(-{FI}" in txt or f"argsort({FI})[:{NE}]" in txt or f"argsort(-{FI})[-{NE}:]" in txt:
+        elif smallest:
             ck.ob("R6-cem", q, "elites", False, f"mean' = {got.elems[0].canon()[:150]}", "the update uses the n_elite candidates with the *smallest* fitness (CEM here is a maximiser)", loc(fn._module, fn))
-        elif "top_k" not in txt and "argsort" not in txt and "sort" not in txt and "partition" not in txt:
+        elif ingredient_tokens(got.elems[0]) | ingredient_tokens(got.elems[1]) <= documented:
+            # built from samples / fitness / n_elite / old moments / alpha with mean and var only: no ranking of the candidates at all
             ck.ob("R6-cem", q, "elites", False, f"mean' = {got.elems[0].canon()[:150]}", "the update does not select the n_elite best candidates by fitness", loc(fn._module, fn))
         else:
             raise AnalysisError(f"{q}: elite selection `{got.elems[0].canon()[:100]}` is none of the enumerated forms (unrecognised idiom)")
@@ -814,17 +1190,24 @@ def r6_cem(ck, repo, nf):
     UPn = param_names(ufn)
     s_arg, f_arg = ub_.get(UPn[0]), ub_.get(UPn[1])
     ck.need(isinstance(s_arg, ast.Name) and isinstance(f_arg, (ast.Name, ast.Call)), f"{q}: cem_update arguments (unrecognised form)")
-    if isinstance(f_arg, ast.Name):
-        fd = cfg.defs_of(un.id, f_arg.id)
-        ck.need(len(fd) == 1 and fd[0].kind == "assign" and isinstance(fd[0].value, ast.Call), f"{q}: fitness values `{f_arg.id}` (unrecognised form)")
-        fcall, f_at = fd[0].value, fd[0].node
-    else:
-        fcall, f_at = f_arg, un.id
-    fit_ok = isinstance(fcall.func, ast.Name) and fcall.func.id == OP[0] and len(fcall.args) == 1 and isinstance(fcall.args[0], ast.Name)
+    fcall, f_at = f_arg, un.id
+    for _hop in range(6):
+        if isinstance(fcall, ast.Name):
+            fd = cfg.defs_of(f_at, fcall.id)
+            ck.need(len(fd) == 1 and fd[0].kind == "assign", f"{q}: fitness values `{fcall.id}` (unrecognised form)")
+            fcall, f_at = fd[0].value, fd[0].node
+        elif isinstance(fcall, ast.Call) and isinstance(fcall.func, (ast.Name, ast.Attribute)) and len(fcall.args) == 1 and not fcall.keywords and (repo.resolve_expr(mi, fcall.func) or "") in ("jax.numpy.asarray", "jax.numpy.array", "numpy.asarray", "numpy.array"):
+            fcall = fcall.args[0]      # value-preserving conversion of the fitness vector
+        else:
+            break
+    fit_ok = isinstance(fcall, ast.Call) and isinstance(fcall.func, ast.Name) and fcall.func.id == OP[0] \
+        and len(fcall.args) == 1 and not fcall.keywords and isinstance(fcall.args[0], ast.Name)
     if not fit_ok:
         raise AnalysisError(f"{q}: fitness values come from `{short(fcall, 60)}` (unrecognised form)")
-    same = fcall.args[0].id == s_arg.id and [d.node for d in cfg.defs_of(f_at, fcall.args[0].id)] == [d.node for d in cfg.defs_of(un.id, s_arg.id)]
-    from_sample = [d.node for d in cfg.defs_of(un.id, s_arg.id)] == [sn.id]
+    evaluated, ranked = _root_definitions(cfg, fcall.args[0].id, f_at), _root_definitions(cfg, s_arg.id, un.id)
+    ck.need(evaluated and ranked, f"{q}: the evaluated / ranked samples are not local variables (unrecognised form)")
+    same = evaluated == ranked
+    from_sample = ranked == [sn.id]
     ok = same and from_sample
     ck.ob("R6-cem", q, "update-from-evaluated-samples", ok, f"`{short(fcall, 50)}`; `{short(uc, 70)}`", "" if ok else "the update must use the fitness of the very samples it ranks (the population drawn in this iteration)", loc(mi, uc))
 
@@ -871,6 +1254,15 @@ MUTANTS = [
     {"id": "c16-reported-sign", "file": _C, "rule": "R2", "find": "    best_fitness = -state.best_fitness", "replace": "    best_fitness = state.best_fitness"},
     {"id": "c16-cem-worst-elites", "file": _X, "rule": "R6", "find": "    _, top_k = jax.lax.top_k(fitness, n_elite)", "replace": "    _, top_k = jax.lax.top_k(-fitness, n_elite)"},
     {"id": "c16-cem-bounds-swapped", "file": _X, "rule": "R6", "find": "        samples = cem_sample(mean, var, step_key, n_population, lb, ub)", "replace": "        samples = cem_sample(mean, var, step_key, n_population, ub, lb)"},
+    # violation paths that need positive evidence (audit): each keeps a mutant
+    {"id": "c16-foreign-writer", "file": _C, "rule": "R2", "find": "    state.last_mean = state.mean\n    ranking", "replace": "    state.best_fitness = jnp.inf\n    state.last_mean = state.mean\n    ranking"},
+    {"id": "c16-evaluates-other-population", "file": _C, "rule": "R2", "find": "        set_params(policy, get_next_parameters(config, state, population))", "replace": "        fresh = Population.create(samples=sample_population(config, state))\n        set_params(policy, get_next_parameters(config, state, fresh))"},
+    {"id": "c16-fitness-slot-index", "file": _C, "rule": "R2", "find": "    population.fitness[k] = fitness_k\n", "replace": "    population.fitness[state.it] = fitness_k\n"},
+    {"id": "c16-set-offset-start", "file": _C, "rule": "R5", "find": "    n_params_set = 0\n", "replace": "    n_params_set = 1\n"},
+    {"id": "c16-set-container-start", "file": _C, "rule": "R5", "find": "    new_leaves = []\n", "replace": "    new_leaves = [params]\n"},
+    {"id": "c16-cem-no-selection", "file": _X, "rule": "R6", "find": "    elites = jnp.take(samples, top_k, axis=0)\n", "replace": "    elites = samples\n"},
+    {"id": "c16-rank-mu-asymmetric", "file": _C, "rule": "R7", "find": "    rank_mu_update = noise.T.dot(jnp.diag(config.weights)).dot(noise)", "replace": "    rank_mu_update = noise.T.dot(jnp.diag(config.weights)).dot(update_samples)"},
+    {"id": "c16-cap-removed-product", "file": _C, "rule": "R4", "find": "    state.var = state.var * jnp.exp(min((0.6, log_step_size_update))) ** 2", "replace": "    step = jnp.exp(log_step_size_update)\n    state.var = state.var * step * step"},
 ]
 BENIGN = [
     {"id": "c16-b-scatter-broadcast", "file": _C, "find": "    rank_mu_update = noise.T.dot(jnp.diag(config.weights)).dot(noise)", "replace": "    rank_mu_update = (config.weights[:, jnp.newaxis] * noise).T.dot(noise)"},
@@ -884,5 +1276,17 @@ BENIGN = [
      "replace": "    it = state.it\n    state.it = it + 1\n    if fitness_k > state.best_fitness:\n        return\n    state.best_fitness = fitness_k\n    state.best_fitness_it = it\n    state.best_params = population.samples[k]"},
     {"id": "c16-b-lt", "file": _C, "find": "    if fitness_k <= state.best_fitness:", "replace": "    if fitness_k < state.best_fitness:"},
     {"id": "c16-b-var-square", "file": _C, "find": "    state.var = state.var * jnp.exp(min((0.6, log_step_size_update))) ** 2", "replace": "    step = jnp.exp(min((0.6, log_step_size_update)))\n    state.var = state.var * step**2"},
+    # refactoring kinds the rules were made tolerant to (audit)
+    {"id": "c16-b-create-inherited", "file": _C, "edits": [("@struct.dataclass\nclass CMAESConfig:\n", "@struct.dataclass\nclass _CMAESConfigBase:\n"),
+        ("@dataclasses.dataclass(frozen=False)\nclass CMAESState:", "@struct.dataclass\nclass CMAESConfig(_CMAESConfigBase):\n    \"\"\"Configuration of CMA-ES.\"\"\"\n\n\n@dataclasses.dataclass(frozen=False)\nclass CMAESState:")]},
+    {"id": "c16-b-feedback-alias-keywords", "file": _C, "find": "        set_evaluation_feedback(config, state, population, ret)", "replace": "        cma_config = config\n        set_evaluation_feedback(feedback=float(ret), population=population, state=state, config=cma_config)"},
+    {"id": "c16-b-result-keywords", "file": _C, "find": "    best_fitness = -state.best_fitness\n    return namedtuple(\"CMAESResult\", [\"policy\", \"best_fitness\", \"stopped\"])(\n        policy, best_fitness, stopped\n    )",
+     "replace": "    incumbent = state.best_fitness\n    result = namedtuple(\"CMAESResult\", [\"policy\", \"best_fitness\", \"stopped\"])(\n        stopped=stopped, best_fitness=-incumbent, policy=policy\n    )\n    return result"},
+    {"id": "c16-b-set-params-initial-values", "file": _C, "find": "    n_params_set = 0\n    new_leaves = []\n", "replace": "    n_params_set, new_leaves = 0, list()\n"},
+    {"id": "c16-b-mean-spelling", "file": _C, "edits": [("    ranking = jnp.argsort(fitness, axis=0)\n    update_samples = samples[ranking[: config.mu]]\n", "    ranking = jnp.argsort(fitness)\n    update_samples = samples[ranking][: config.mu]\n"),
+        ("        config.weights[:, jnp.newaxis] * update_samples, axis=0\n", "        config.weights[:, None] * update_samples, 0\n")]},
+    {"id": "c16-b-cem-samples-copy", "file": _X, "find": "        samples = cem_sample(mean, var, step_key, n_population, lb, ub)\n        f = fitness_function(samples)\n", "replace": "        drawn = cem_sample(mean, var, step_key, n_population, lb, ub)\n        samples = drawn\n        f = jnp.asarray(fitness_function(samples))\n"},
+    {"id": "c16-b-next-row", "file": _C, "find": "    return population.samples[k]", "replace": "    return population.samples[k, :]"},
+    {"id": "c16-b-maximize-constant", "file": _C, "edits": [("@struct.dataclass\nclass CMAESConfig:", "_MAXIMIZE_RETURN = True\n\n\n@struct.dataclass\nclass CMAESConfig:"), ("        maximize=True,\n        min_variance=2", "        maximize=_MAXIMIZE_RETURN,\n        min_variance=2")]},
     {"id": "c16-b-incumbent-order", "file": _C, "find": "        state.best_fitness = fitness_k\n        state.best_fitness_it = state.it\n", "replace": "        state.best_fitness_it = state.it\n        state.best_fitness = fitness_k\n"},
 ]
